@@ -188,7 +188,7 @@ func pureCallee(name string) bool {
 // function that may write through pointers).
 func (e *Engine) havocEscaped(st *State, ci *CallInfo, disp *Disposition, site string) {
 	if ci.Static != nil {
-		if pureCallee(ci.Static.String()) {
+		if pureCallee(CalleeName(ci.Static)) {
 			return
 		}
 		if ci.Static.Pkg == e.Cfg.Pkg || parentPkg(ci.Static) == e.Cfg.Pkg {
@@ -273,7 +273,7 @@ func (e *Engine) defaultDisposition(st *State, ci *CallInfo, d *Disposition) {
 		} else {
 			d.Act = ActEvent
 			if d.Class == "" {
-				d.Class = "call:" + fn.String()
+				d.Class = "call:" + CalleeName(fn)
 			}
 		}
 	default:
@@ -282,6 +282,15 @@ func (e *Engine) defaultDisposition(st *State, ci *CallInfo, d *Disposition) {
 			d.Class = "dyn:" + DescribeFnTerm(ci.FnTerm)
 		}
 	}
+}
+
+// CalleeName is the full name of a function; instances of generic functions
+// are named after their origin (maps.Clone, not maps.Clone[...]).
+func CalleeName(fn *ssa.Function) string {
+	if o := fn.Origin(); o != nil {
+		return o.String()
+	}
+	return fn.String()
 }
 
 func parentPkg(fn *ssa.Function) *ssa.Package {
@@ -347,7 +356,7 @@ func (e *Engine) model(st *State, ci *CallInfo, site string) []*Term {
 	if ci.Static == nil {
 		return nil
 	}
-	name := ci.Static.String()
+	name := CalleeName(ci.Static)
 	switch name {
 	case "fmt.Errorf":
 		return []*Term{e.modelErrorf(st, ci, site)}
@@ -376,6 +385,9 @@ func stripBox(t *Term) *Term {
 	}
 	return t
 }
+
+// SliceElems exposes sliceElems to monitors.
+func (e *Engine) SliceElems(st *State, s *Term) []*Term { return e.sliceElems(st, s) }
 
 // sliceElems returns the elements of a variadic slice built from a local array.
 func (e *Engine) sliceElems(st *State, s *Term) []*Term {
@@ -452,6 +464,9 @@ func (e *Engine) builtin(st *State, fr *Frame, call ssa.CallInstruction, val ssa
 	switch b.Name() {
 	case "len":
 		x := args[0]
+		if _, isMap := call.Common().Args[0].Type().Underlying().(*types.Map); isMap {
+			e.deliver(st, &Event{Kind: "len", Instr: call, Fn: fr.fn, Depth: fr.depth, Pos: e.Pos(call), Site: site, Addr: x})
+		}
 		switch {
 		case x.K == KMake && len(x.A) >= 1 && x.A[0] != nil:
 			if _, isMap := x.T.Underlying().(*types.Map); !isMap {
